@@ -45,11 +45,20 @@ func TestMain(m *testing.M) {
 		os.Unsetenv("VERIF_EV_OUT")
 	}
 	// temp dirs (t.TempDir) go to tmpfs when there is one: the check creates and rewrites small files a few hundred
-	// thousand times and nothing it decides depends on the kind of file system
+	// thousand times and nothing it decides depends on the kind of file system. One parent directory per process,
+	// removed on exit; parents left behind by killed shards are swept when they are older than two hours.
+	tmpParent := ""
 	if fi, err := os.Stat("/dev/shm"); err == nil && fi.IsDir() && os.Getenv("VERIF_C15_TMP_ON_DISK") == "" {
-		if d, err := os.MkdirTemp("/dev/shm", "c15-probe"); err == nil {
-			os.Remove(d)
-			os.Setenv("TMPDIR", "/dev/shm")
+		if old, _ := filepath.Glob("/dev/shm/verif-c15-*"); len(old) > 0 {
+			for _, o := range old {
+				if st, err := os.Stat(o); err == nil && time.Since(st.ModTime()) > 2*time.Hour {
+					os.RemoveAll(o)
+				}
+			}
+		}
+		if d, err := os.MkdirTemp("/dev/shm", "verif-c15-"); err == nil {
+			tmpParent = d
+			os.Setenv("TMPDIR", d)
 		}
 	}
 	ev.Init("C15")
@@ -59,6 +68,9 @@ func TestMain(m *testing.M) {
 		replayCrashers()
 	}
 	ev.Flush()
+	if tmpParent != "" {
+		os.RemoveAll(tmpParent)
+	}
 	os.Exit(rc)
 }
 
